@@ -167,7 +167,7 @@ func (p *DefaultOpcodeParser) Parse(s *bscript.Script) (ParsedScript, error) {
 				if (i + 3) > totalLen {
 					// we have a single byte of extra data
 					parsedOps = append(parsedOps, ParsedOpcode{op: opcode{
-						name:   "Unformatted Data",
+						name:   unformattedData,
 						val:    script[i+1],
 						length: 1,
 					}})
@@ -175,7 +175,7 @@ func (p *DefaultOpcodeParser) Parse(s *bscript.Script) (ParsedScript, error) {
 				}
 				// we have multiple bytes of extra data
 				parsedOps = append(parsedOps, ParsedOpcode{op: opcode{
-					name:   "Unformatted Data",
+					name:   unformattedData,
 					val:    script[i+1],
 					length: len(script[i+1:]),
 				}, Data: script[i+2:]})
@@ -271,15 +271,64 @@ func (p ParsedScript) removeOpcodeByData(data []byte) ParsedScript {
 	return retScript
 }
 
-func (p ParsedScript) removeOpcode(opcode byte) ParsedScript {
+func (p ParsedScript) removeOpcode(val byte) ParsedScript {
 	retScript := make(ParsedScript, 0, len(p))
 	for _, pop := range p {
-		if pop.op.val != opcode {
+		if pop.op.name == unformattedData {
+			// The bytes behind a top level OP_RETURN are kept as one element
+			// whose "opcode" is merely their first byte: the opcode is taken
+			// out of them instruction by instruction, as it is out of the
+			// rest of the script.
+			rest := removeOpcodeFromBytes(append([]byte{pop.op.val}, pop.Data...), val)
+			if len(rest) > 0 {
+				retScript = append(retScript, ParsedOpcode{
+					op:   opcode{name: unformattedData, val: rest[0], length: len(rest)},
+					Data: rest[1:],
+				})
+			}
+			continue
+		}
+		if pop.op.val != val {
 			retScript = append(retScript, pop)
 		}
 	}
 
 	return retScript
+}
+
+// unformattedData names the element that holds the bytes following a top
+// level OP_RETURN.
+const unformattedData = "Unformatted Data"
+
+// removeOpcodeFromBytes reads b instruction by instruction and returns it
+// without the instructions that are the given (non push) opcode. Bytes that
+// cannot be read as an instruction (a push running past the end) are kept as
+// they are.
+func removeOpcodeFromBytes(b []byte, opcode byte) []byte {
+	out := make([]byte, 0, len(b))
+	for i := 0; i < len(b); {
+		n := 1
+		switch op := b[i]; {
+		case op >= bscript.OpDATA1 && op <= bscript.OpDATA75:
+			n += int(op)
+		case op == bscript.OpPUSHDATA1 && i+1 < len(b):
+			n += 1 + int(b[i+1])
+		case op == bscript.OpPUSHDATA2 && i+2 < len(b):
+			n += 2 + int(binary.LittleEndian.Uint16(b[i+1:]))
+		case op == bscript.OpPUSHDATA4 && i+4 < len(b):
+			n += 4 + int(binary.LittleEndian.Uint32(b[i+1:]))
+		case op >= bscript.OpPUSHDATA1 && op <= bscript.OpPUSHDATA4:
+			n = len(b) - i + 1 // length bytes missing
+		}
+		if n > len(b)-i {
+			return append(out, b[i:]...)
+		}
+		if n > 1 || b[i] != opcode {
+			out = append(out, b[i:i+n]...)
+		}
+		i += n
+	}
+	return out
 }
 
 // canonicalPush returns true if the object is either not a push instruction
